@@ -1,6 +1,7 @@
 import KonstVerif.Lemmas.ArrayEval
 /-
   F11a / F11b / F11c (found by the programs of vlib/progs/c11x.py; fixed in /repo by 76ed0a3, 5af8e6b, c6bef38).
+  F11d (b7532cf): see the last section.
   This file documents the findings on the AS-FOUND expansions of `array::map!` / `from_fn!` / `map_!` /
   `from_fn_!`; it contributes NO obligation to C11.
 
@@ -190,5 +191,47 @@ theorem legacy_transparent_witnesses :
     transparentD (legacyArrayMapSk .literal) (some "closure") (.item .const) "func" = true ∧
     transparentD (legacyArrayMapSk .literal) (some "closure") (.item .fn) "len" = true ∧
     transparentD (legacyArrayMapSk .literal) (some "closure") .var "len" = true := by decide
+
+/-! ### F11d (fixed in /repo by b7532cf) — `from_fn!` bound the closure parameter PATTERN to its own loop counter
+
+  As found `array_from_fn!` passed `|i| i` as `$get_input`, so `__array_map` emitted `let $pattern = i;` with the
+  loop counter itself on the right: `from_fn!([u8; 4] => |ref mut i| { *i += 1; 7u8 })` compiled, the closure advanced
+  the counter, the loop ended after two calls, `assert!(i == len)` held and `array_assume_init` read two slots that
+  were never written (observed `[214, 7, 0, 7]`). Regression rows: `arr.pat.from_fn.refmut7.* 4`
+  (was `UNWRITTEN|calls=2`), `arr.safe.pat.from_fn.refmut*`. -/
+
+def legacyPatPlace : String → PatPlace
+  | "from_fn" => .counter
+  | m => patPlace m
+
+theorem legacy_fromFn_refMut_aliases (used : Bool) :
+    patVerdict (legacyPatPlace "from_fn") .refMut used = .aliasesCounter := by cases used <;> rfl
+
+/-- the loop of `__array_map` when the closure body holds `&mut` to the counter: `c t i` = (outcome, the value it
+    leaves in the counter); `out[i] = ..` uses the counter AFTER the body ran, then `i += 1` -/
+def legacyAliasLoop (len : Nat) (c : Nat → Nat → Outcome β × Nat) :
+    Nat → Nat → Nat → List (Option β) → List (Nat × Nat) → Run Nat β
+  | 0, _, _, out, calls => ⟨.diverge, out, calls⟩
+  | fuel + 1, t, i, out, calls =>
+    if i < len then
+      match c t i with
+      | (.value v, i') =>
+        if i' < out.length then legacyAliasLoop len c fuel (t + 1) (i' + 1) (out.set i' (some v)) (calls ++ [(t, i)])
+        else ⟨.panic, out, calls ++ [(t, i)]⟩
+      | (.cont, i') => legacyAliasLoop len c fuel (t + 1) i' out (calls ++ [(t, i)])
+      | (.brk, i') => ⟨afterLoop len i' out, out, calls ++ [(t, i)]⟩
+      | (.ret, _) => ⟨.returned, out, calls ++ [(t, i)]⟩
+      | (.panic, _) => ⟨.panic, out, calls ++ [(t, i)]⟩
+    else ⟨afterLoop len i out, out, calls⟩
+
+/-- kernel-checked witness: `from_fn!([u8; 4] => |ref mut i| { *i += 1; 7 })` — two calls, slots 0 and 2 unwritten,
+    the assert passes, `assume_init` of unwritten slots -/
+theorem legacy_fromFn_refMut_ub :
+    let r := legacyAliasLoop 4 (fun _ i => (Outcome.value 7, i + 1)) 10 0 0 (List.replicate 4 none) []
+    r.res = Res.ub ∧ r.out = [none, some 7, none, some 7] ∧ r.calls = [(0, 0), (1, 2)] := by decide
+
+/-- a body that leaves the counter alone behaves like the by-value loop -/
+example : (legacyAliasLoop 3 (fun _ i => (Outcome.value (3 * i + 2), i)) 10 0 0 (List.replicate 3 none) []).res
+    = Res.array [2, 5, 8] := by decide
 
 end Konst.Legacy.ArrayEval
